@@ -377,11 +377,14 @@ pub fn build(wx: &WX, log: &Log, cat: &Rc<Cat>) -> DynW {
 // stream generators
 
 #[derive(Clone, Copy, Debug, PartialEq)]
-pub enum Outc { Pass, Skip, Amb, Panic }
+pub enum Outc { Pass, Skip, Amb, Panic, NotFound }
 
 thread_local! {
     /// focus mode of the `fail_on_skipped` cases: most non-passing steps are Skipped
     pub static SKIP_BIAS: std::cell::Cell<bool> = const { std::cell::Cell::new(false) };
+    /// streams as seen BEHIND `fail_on_skipped`: a skipped step may arrive as Failed(NotFound) — in an
+    /// attempt that is the last one whatever its retry counter says (the runner saw a Skipped step)
+    pub static NOTFOUND_MODE: std::cell::Cell<bool> = const { std::cell::Cell::new(false) };
 }
 
 /// One canonical attempt (what `Executor::run_scenario` emits), chosen randomly.
@@ -394,6 +397,7 @@ pub fn gen_attempt(
     let push = |v: &mut Vec<AEv>, e: ASc| v.push(AEv::Scen(key, ret, e));
     push(&mut v, ASc::Started);
     let mut failed = false;
+    let mut not_found = false;
     let mut deferred: Option<ASc> = None;
     let mut stop = false;
     if hooks.0 {
@@ -415,11 +419,13 @@ pub fn gen_attempt(
             if logs && rng.chance(1, 6) { push(v, ASc::Log(rng.below(5))); }
             let o = if rng.chance(p_fail, 20) {
                 if SKIP_BIAS.with(std::cell::Cell::get) { *rng.pick(&[Outc::Skip, Outc::Skip, Outc::Skip, Outc::Panic]) }
+                else if NOTFOUND_MODE.with(std::cell::Cell::get) { *rng.pick(&[Outc::Skip, Outc::NotFound, Outc::NotFound, Outc::Amb, Outc::Panic]) }
                 else { *rng.pick(&[Outc::Skip, Outc::Amb, Outc::Panic, Outc::Panic]) }
             } else { Outc::Pass };
             match o {
                 Outc::Pass => push(v, mk(ARes::Passed)),
                 Outc::Skip => { push(v, mk(ARes::Skipped)); stop = true; }
+                Outc::NotFound => { deferred = Some(mk(ARes::Failed(AErr::NotFound))); not_found = true; stop = true; }
                 Outc::Amb => { deferred = Some(mk(ARes::Failed(AErr::Ambiguous))); failed = true; stop = true; }
                 Outc::Panic => { deferred = Some(mk(ARes::Failed(AErr::Panic(rng.below(3))))); failed = true; stop = true; }
             }
@@ -438,7 +444,8 @@ pub fn gen_attempt(
         }
     }
     push(&mut v, ASc::Finished);
-    (v, failed)
+    // a not-found failure ends the retry chain (the runner never retries a skipped step)
+    (v, failed && !not_found)
 }
 
 /// A normalized, contract-abiding stream over the catalog, with retries.
